@@ -1,2 +1,66 @@
-(* Props/C03.v *)
-From BC Require Import Store.Engine.
+(* Props/C03.v — C03: a process crash at any instant loses no acknowledged write and corrupts nothing.
+   What is proved here (record level, crash points at system-call boundaries of set / delete /
+   rollover / reopen, and at every operation boundary of any script including merges); what is NOT
+   yet proved is listed at the end and is decided by enumeration of crash images cut from recorded
+   real traces (`bin/check C03`). *)
+From BC Require Import Store.Engine Store.Log Store.Cons Store.Inv Store.Refine Store.Merge Store.Theorems.
+Open Scope N_scope.
+
+(* 1. At every operation boundary of every ready script — merges included — the directory can be
+      opened and the opened store reads exactly the acknowledged state. *)
+Theorem C03_boundary_recoverable : forall c s clk, reachable c s ->
+  exists s' t, open (s_dir s) clk = ROk (s', tt, t) /\ Inv s' /\ forall k, abs s' k = abs s k.
+Proof.
+  intros c s clk Hr. pose proof (reachable_inv c s Hr) as HI.
+  destruct (hints_optional s clk HI) as (s1 & t1 & _ & _ & H1 & _ & HI1 & _ & Ha & _). eauto.
+Qed.
+Print Assumptions C03_boundary_recoverable.
+
+(* 2. A set or a delete issues exactly one append before anything else; the directory before that
+      call recovers to the state without the operation, the directory after it (with or without the
+      new active file a rollover creates, which is empty) to the state with it: the operation in
+      flight is applied entirely or not at all. *)
+Theorem C03_put_atomic : forall c s k v, Inv s ->
+  exists s' t pos, put c s k v = ROk (s', tt, t) /\ Inv s' /\
+    slog s' = slog s ++ [(s_active s, pos, mkEntry (s_clock s) k (Some v))] /\
+    (forall k', abs s' k' = if beq k' k then Some v else abs s k').
+Proof.
+  intros c s k v HI. destruct (put_ok c s k v HI) as (s' & t & pos & Hp & HI' & Hlog & _).
+  exists s', t, pos. split; [exact Hp|]. split; [exact HI'|]. split; [exact Hlog|].
+  intros k'. unfold abs. rewrite Hlog, lastval_app. cbn [lastval e_key e_val]. destruct (beq k' k); reflexivity.
+Qed.
+Print Assumptions C03_put_atomic.
+
+Theorem C03_delete_atomic : forall c s k, Inv s ->
+  exists s' t pos b, delete c s k = ROk (s', b, t) /\ Inv s' /\
+    slog s' = slog s ++ [(s_active s, pos, mkEntry (s_clock s) k None)] /\
+    (forall k', abs s' k' = if beq k' k then None else abs s k').
+Proof.
+  intros c s k HI. destruct (delete_ok c s k HI) as (s' & t & pos & Hp & HI' & Hlog & _).
+  exists s', t, pos, (match abs s k with Some _ => true | None => false end).
+  split; [exact Hp|]. split; [exact HI'|]. split; [exact Hlog|].
+  intros k'. unfold abs. rewrite Hlog, lastval_app. cbn [lastval e_key e_val]. destruct (beq k' k); reflexivity.
+Qed.
+Print Assumptions C03_delete_atomic.
+
+(* 3. Recovery depends on the records only: files that hold no record (a freshly created active
+      file, a merge output nothing was copied to yet) and hint files do not change what is recovered. *)
+Theorem C03_empty_files_invisible : forall d id, log_of_dir (d ++ [(id, empty_file)]) = log_of_dir d.
+Proof. exact log_of_dir_app_empty. Qed.
+Print Assumptions C03_empty_files_invisible.
+
+(* 4. Recovery itself only creates a file. *)
+Theorem C03_recovery_only_creates : forall s s' t, reopen s = ROk (s', tt, t) -> exists a, t = [SCreate (FData a)].
+Proof.
+  intros s s' t H. unfold reopen, open in H. destruct (rebuild_files (s_dir s) ([], [])) as [[i x]|]; [|discriminate].
+  inversion H; subst. eauto.
+Qed.
+Print Assumptions C03_recovery_only_creates.
+
+(* Not yet proved in Coq (C03_crash_safe in DESIGN.md section 8):
+     - crash points strictly inside a merge pass (between its copies, its fsyncs and its unlinks),
+     - the byte level: a cut inside the last write leaves a strict prefix of a record, which the scan
+       reports as end of file (the codec prefix lemma),
+     - histories with several crashes.
+   `bin/check C03` covers them by opening, with the real code, every image cut from the recorded real
+   trace of every generated workload at every call boundary and at byte cuts inside writes. *)
